@@ -280,6 +280,17 @@ impl Shared {
                 e
             })?;
 
+            // the read caches are keyed by block hash and would keep serving the wiped blocks
+            if let Some(cache) = self.store.cache() {
+                for hash in side.keys() {
+                    cache.headers.lock().pop(hash);
+                    cache.block_uncles.lock().pop(hash);
+                    cache.block_proposals.lock().pop(hash);
+                    cache.block_tx_hashes.lock().pop(hash);
+                    cache.block_extensions.lock().pop(hash);
+                }
+            }
+
             if !stopped {
                 let start = side.keys().min().expect("side empty checked");
                 let end = side.keys().max().expect("side empty checked");
